@@ -193,7 +193,9 @@ def c14_program(rnd):
             elif r < 0.8:
                 goals.append(('call', 'retractall', [('F', pred, [t])]))
             elif r < 0.9:
-                goals.append(('call', pred, [('V', 'Y')]))
+                # a second enumeration: of the other predicate (enumerating and growing the same one twice
+                # inside each other is exponential in the number of facts)
+                goals.append(('call', 'e' if pred == 'd' else 'd', [('V', 'Y')]))
             else:
                 goals.append(('call', 'seen', [('V', 'X')]) if False else ('call', 'assertz', [('F', 'seen', [('V', 'X')])]))
         if rnd.random() < 0.5:
